@@ -82,6 +82,8 @@ def strategy(tier):
              "resp_kinds": [draw(st.sampled_from(RESP_KINDS)) for _ in range(ncon + 1)],
              "topo": draw(st.sampled_from(["direct", "concat"])),
              "start": draw(st.sampled_from(["random", "feasible", "on_bound"])),
+             # integer-typed initial states (np.ones(n, dtype=int), a python 1) for the first or for all variable signals
+             "int_start": draw(st.sampled_from(["none", "none", "none", "first", "all", "all"])),
              "verbosity": draw(st.sampled_from([0, 0, 0, 1, 2, 3, 4])),
              # variables as plain Signals, as basic slices of one design Signal (array kinds only) or as Signals with a
              # pre-allocated sensitivity buffer (cleared in place by reset())
@@ -223,6 +225,14 @@ def build_problem(case):
         if case["start"] == "on_bound":
             pick = rng.random(n)
             x0 = np.where(pick < 0.3, xmin, np.where(pick > 0.7, xmax, x0))
+    int_sigs = []
+    if case.get("int_start", "none") != "none" and case.get("var_form", "signals") in ("signals", "prealloc"):
+        for i in range(k if case["int_start"] == "all" else 1):
+            sl = slice(int(cum[i]), int(cum[i + 1]))
+            cand = np.ceil(xmin[sl])
+            if np.all(cand <= xmax[sl]):           # an integer inside every box of this signal
+                x0[sl] = cand
+                int_sigs.append(i)
     # --- objective
     if case["obj"] == "recip":
         c = np.exp(rng.uniform(np.log(0.2), np.log(5.0), n))
@@ -279,7 +289,7 @@ def build_problem(case):
         kw["mmaversion"] = case["version"]
     if case.get("asybound", "default") != "default":
         kw["asybound"] = case["asybound"]
-    return {"n": n, "k": k, "sizes": sizes, "cum": cum, "xmin": xmin, "xmax": xmax, "move": move, "x0": x0,
+    return {"int_sigs": int_sigs, "n": n, "k": k, "sizes": sizes, "cum": cum, "xmin": xmin, "xmax": xmax, "move": move, "x0": x0,
             "xref": xref, "f": [f0] + cons, "subsets": [list(range(k))] + subsets, "kw": kw}
 
 
@@ -527,8 +537,10 @@ def run_mma(case, prob, rec):
         variables = []
         for i, sg in enumerate(case["sigs"]):
             st0 = _make_state(sg["kind"], prob["x0"][cum[i]:cum[i + 1]])
+            if i in prob.get("int_sigs", ()):
+                st0 = st0.astype(int) if isinstance(st0, np.ndarray) else (np.int64(st0) if isinstance(st0, np.floating) else int(st0))
             if form == "prealloc" and isinstance(st0, np.ndarray) and st0.ndim >= 1:
-                variables.append(pym.Signal(f"x{i}", state=st0, sensitivity=np.zeros_like(st0)))
+                variables.append(pym.Signal(f"x{i}", state=st0, sensitivity=np.zeros(st0.shape)))
             else:
                 variables.append(pym.Signal(f"x{i}", state=st0))
     net = pym.Network()
@@ -634,6 +646,8 @@ def check_case(case, _debug=None):
     labels.append("n<=3" if n <= 3 else ("n<=12" if n <= 12 else "n>12"))
     if case.get("asybound", "default") not in ("default", 10.0):
         labels.append("asybound_not_default")
+    if prob.get("int_sigs"):
+        labels.append("integer_initial_state" + ("_all" if len(prob["int_sigs"]) == k else "_mixed_with_float"))
     V = []
     seen = set()
 
